@@ -1,5 +1,6 @@
 """C19: each task sees its own namespace settings; session edits persist safely."""
 import itertools
+import time
 import os
 import random
 
@@ -127,19 +128,50 @@ class C19(Prop):
         fl = rng.choice(["item", "item", "attr"])
         leaves = list(self._leaf_paths(sch))
         secs = [p for p, sec in cc.schema_paths(sch) if sec]
+        newkey = lambda: rng.choice(["newkey", "zz", "fresh"])
         r = rng.random()
-        if r < 0.45 and leaves:
+        if r < 0.30 and leaves:
             p, kind = rng.choice(leaves)
             return ["set", fl, list(p[:-1]), p[-1], gt.jsonable(gt.leaf(rng, kind))]
-        if r < 0.55:
+        if r < 0.38:
             kp = list(rng.choice(secs)) if secs and rng.random() < 0.5 else []
-            return ["set", fl, kp, rng.choice(["newkey", "zz", "fresh"]), gt.jsonable(gt.leaf(rng, "bis"))]
-        if r < 0.75 and leaves:
+            return ["set", fl, kp, newkey(), gt.jsonable(gt.leaf(rng, "bis"))]
+        if r < 0.50 and leaves:
             p, _ = rng.choice(leaves)
-            return [rng.choice(["del", "del", "pop"]), fl, list(p[:-1]), p[-1]] + ([None] if False else [])
-        if r < 0.85 and secs:
+            return [rng.choice(["del", "del", "pop"]), fl, list(p[:-1]), p[-1]]
+        if r < 0.56 and secs:
             p = rng.choice(secs)
             return ["del", fl, list(p[:-1]), p[-1]]
+        if r < 0.66:
+            # update: a few settings of one section at once, in one of the three call styles
+            kp = list(rng.choice(secs)) if secs and rng.random() < 0.6 else []
+            sub = sch
+            for k in kp:
+                sub = sub[k]
+            kvs = [[k, gt.jsonable(gt.leaf(rng, v))] for k, v in sub.items() if not isinstance(v, dict) and rng.random() < 0.6]
+            if rng.random() < 0.4:
+                kvs.append([newkey(), gt.jsonable(gt.leaf(rng, "is"))])
+            return ["update", fl, kp, kvs, rng.choice(["dict", "kwargs", "pairs"])]
+        if r < 0.74 and leaves:
+            p, kind = rng.choice(leaves)
+            k = p[-1] if rng.random() < 0.6 else newkey()
+            return ["setdefault", fl, list(p[:-1]), k, {"d": gt.jsonable(gt.leaf(rng, kind))} if rng.random() < 0.8 else None]
+        if r < 0.79 and secs:
+            return ["clear", fl, list(rng.choice(secs))]
+        if r < 0.84:
+            return ["popitem", fl, list(rng.choice(secs)) if secs and rng.random() < 0.7 else []]
+        if r < 0.88 and leaves:
+            p, kind = rng.choice(leaves)
+            return ["pop", fl, list(p[:-1]), p[-1] if rng.random() < 0.6 else newkey(), {"d": gt.jsonable(gt.leaf(rng, kind))}]
+        if r < 0.93:
+            # a dict-valued write: a whole (new or existing) section at once
+            if secs and rng.random() < 0.6:
+                p = rng.choice(secs)
+                sub = sch
+                for k in p:
+                    sub = sub[k]
+                return ["set", fl, list(p[:-1]), p[-1], gt.jsonable(cc.instance(rng, sub, p_keep=0.6, same_kind=1.0))]
+            return ["set", fl, [], newkey() + "sec", {"q": gt.jsonable(gt.leaf(rng, "is"))}]
         if leaves:
             p, _ = rng.choice(leaves)
             return ["get", fl, list(p[:-1]), p[-1]]
@@ -191,6 +223,7 @@ class C19(Prop):
             overrides = dict(overrides, tasks={"dedupe": False})
         envs = [cc.env_for(rng, sch, p_set=rng.choice([0.2, 0.5]), p_bad=0.0) for _ in range(rng.randint(1, 4))]
         return {"script": spec, "hooks": hooks, "bodies": bodies, "requests": reqs, "dedupe": dedupe,
+                "via_ctx": rng.random() < 0.5, "req_form": rng.choice(["str", "pair", "ctx", "ctx"]),
                 "init": {"defaults": gt.jsonable(cc.instance(rng, sch, p_keep=0.6, same_kind=1.0)),
                          "overrides": overrides},
                 "envs": envs}
@@ -317,12 +350,13 @@ class C19(Prop):
 
         def on_call(tid, ctx, args, kwargs):
             cfg = ctx.config
+            target = ctx if case.get("via_ctx") else cfg      # edits through the Context proxy or its .config
             v0 = cc.view_of(cfg)
             outs = []
             rec = [tid, v0, outs, None]
             records.append(rec)
             for op in case["bodies"].get(str(tid), []):
-                _, out = sess.try_op(cfg, op)
+                _, out = sess.try_op(target, op)
                 outs.append(out)
                 if cc.abnormal(out):
                     rec[3] = cc.view_of(cfg)
@@ -358,8 +392,24 @@ class C19(Prop):
                 return obs
             set_env(0)
             escaped = None
+            form = case.get("req_form", "str")
+            reqs = list(case["requests"])
+            names = list(case["requests"])
+            if form == "pair":
+                reqs = [(nm, {}) for nm in names]
+            elif form == "ctx" and names:
+                # the whole request list as ONE command line
+                try:
+                    from invoke.parser import Parser
+                    parsed = Parser(contexts=coll.to_contexts()).parse_argv(list(names))
+                    if len(parsed) == len(names):
+                        reqs = list(parsed)
+                        names = [p.name for p in parsed]      # what the executor will call them as
+                except Exception:   # a name the command line does not accept (C10): plain strings
+                    pass
+            obs["req_names"] = names
             try:
-                Executor(coll, config=cfg).execute(*case["requests"])
+                Executor(coll, config=cfg).execute(*reqs)
             except _Abort as e:
                 escaped = e.cls
             except RecursionError:
@@ -388,7 +438,8 @@ class C19(Prop):
             # build error or unusable request: compare the build only
             return "(mk %s %s %s [] None %s %s %s (Ok ([], None)))" % (
                 ns.sub(case["script"]), init, bodies, ct.b(case["dedupe"]), envs, st)
-        reqs = ct.lst([ct.pair(ct.s(nm), self._scall(case, tid)) for nm, tid in zip(case["requests"], obs["req_tids"])])
+        reqs = ct.lst([ct.pair(ct.s(nm), self._scall(case, tid))
+                       for nm, tid in zip(obs.get("req_names") or case["requests"], obs["req_tids"])])
         dflt = ct.opt(self._scall(case, obs["dflt_tid"]) if obs["dflt_tid"] is not None else None)
         if "ok" in obs:
             recs = ct.lst(["(%s, %s, %s, %s)" % (ct.n(r[0]), cc.c_tree(r[1]), ct.lst([cc.c_outcome(o) for o in r[2]]),
@@ -415,7 +466,7 @@ class C19(Prop):
             return False
         hm = homes(obs["state"]["ok"])
         places = set(len(hm.get(r[0], ())) * 100 + id(hm.get(r[0], ((),))[-1]) % 97 for r in recs)
-        edited = any(("err" not in o) and op[0] in ("set", "del", "pop")
+        edited = any(("err" not in o) and op[0] in ("set", "del", "pop", "update", "setdefault", "clear", "popitem")
                      for r in recs[:-1] for op, o in zip(case["bodies"].get(str(r[0]), []), r[2]))
         return len(set(str(hm.get(r[0])) for r in recs)) >= 2 and edited
 
@@ -437,6 +488,16 @@ class C19(Prop):
         place whose path carries collection-level settings"""
         if "ok" not in obs or "ok" not in obs["state"]:
             return None
+        # F-C06a (C06's finding, also visible here): a dict-valued write is merged into what the other
+        # levels (and earlier deletions) hold at that path instead of replacing it
+        for r in obs["ok"]["records"]:
+            for op, o in zip(case["bodies"].get(str(r[0]), []), r[2]):
+                if "err" in o:
+                    continue
+                if (op[0] == "set" and isinstance(op[4], dict)) or \
+                   (op[0] == "update" and any(isinstance(v, dict) for _, v in op[3])) or \
+                   (op[0] == "setdefault" and op[4] is not None and isinstance(op[4]["d"], dict)):
+                    return "F-C06a"
         hm = homes(obs["state"]["ok"])
         ran = set(r[0] for r in obs["ok"]["records"])
         for tid, called_as in self._calls(case, obs):
@@ -446,8 +507,14 @@ class C19(Prop):
                     return "F-C19"
         return None
 
+    _shrink_t0 = None
+
     def shrink_candidates(self, case):
-        # sessions are expensive to re-run: a bounded number of candidates per round
+        # sessions are expensive to re-run: a bounded number of candidates per round, 75 s in all
+        if self._shrink_t0 is None:
+            self._shrink_t0 = time.time()
+        if time.time() - self._shrink_t0 > 75:
+            return iter(())
         return itertools.islice(self._shrink_all(case), 40)
 
     def _shrink_all(self, case):
